@@ -4,6 +4,41 @@ from fractions import Fraction as F
 import numpy as np
 from vlib import q as Q
 
+import signal, functools
+
+
+class ImplTimeout(Exception):
+    pass
+
+
+_TIMEOUTS = [0]
+
+
+def limited(seconds=15):
+    """run(inp) wrapper: a CPU-time limit per input, so that an implementation that blows up (e.g. a corrupted
+    memo making results grow exponentially) is observed as an exception instead of hanging the check; after
+    three such observations further inputs fail fast."""
+    def deco(run):
+        @functools.wraps(run)
+        def wrapped(inp):
+            if _TIMEOUTS[0] >= 3:
+                raise ImplTimeout("implementation exceeded the CPU limit on three earlier inputs")
+            def handler(sig, frm):
+                raise ImplTimeout("implementation exceeded %d s CPU on one input" % seconds)
+            old = signal.signal(signal.SIGVTALRM, handler)
+            signal.setitimer(signal.ITIMER_VIRTUAL, seconds)
+            try:
+                return run(inp)
+            except ImplTimeout:
+                _TIMEOUTS[0] += 1
+                raise
+            finally:
+                signal.setitimer(signal.ITIMER_VIRTUAL, 0)
+                signal.signal(signal.SIGVTALRM, old)
+        return wrapped
+    return deco
+
+
 ERR = {"KeyError": "KeyError", "ValueError": "ValueError", "LinAlgError": "LinAlgError", "IndexError": "IndexError"}
 
 
@@ -17,6 +52,8 @@ def exc_name(o):
 def guard(f):
     try:
         return f()
+    except ImplTimeout:
+        raise
     except Exception as e:  # the exception *is* the observation
         return {"exc": type(e).__name__, "msg": str(e)[:120]}
 
@@ -220,12 +257,19 @@ def lean_spec(spec):
 
 def norm_bound(rep, letters):
     """product of the spectral norms of the letters: float error of the product is ~ len * n * eps * this"""
+    cache = rep.__dict__.setdefault("_verif_norms", {})
     b = 1.0
     for x in letters:
-        try:
-            b *= max(1.0, float(np.linalg.norm(np.asarray(rep.generators[x], dtype=complex), 2)))
-        except Exception:
+        if x not in cache:
+            try:
+                cache[x] = max(1.0, float(np.linalg.norm(np.asarray(rep.generators[x], dtype=complex), 2)))
+            except ImplTimeout:
+                raise
+            except Exception:
+                cache[x] = None
+        if cache[x] is None:
             return 1.0
+        b *= cache[x]
     return b
 
 
